@@ -70,8 +70,13 @@ def _run(cond, raw, p, realize=True):
     obs = {"build": (b[0], None) if b[0] == "ok" else b}
     if b[0] == "ok":
         rx = b[1]
-        obs["enfa"] = chx.guarded(lambda: plain_fa(rx.to_epsilon_nfa()))
-        obs["accepts"] = chx.guarded(lambda: [bool(rx.accepts(s)) for s in REAL_ACCEPTS])
+        # PythonRegex-specific code is the constructor (the string rewriting + Regex parse), which runs under the
+        # symbolic interpreter above. The Thompson construction and accepts() of the resulting Regex (C05's
+        # subject) run natively here: the 100-way unions behind '.', [^...] and \w exceed CPython's C recursion
+        # limit under tracing (RecursionError that does not exist natively).
+        with chx.NT():
+            obs["enfa"] = chx.guarded(lambda: plain_fa(rx.to_epsilon_nfa()))
+            obs["accepts"] = chx.guarded(lambda: [bool(rx.accepts(s)) for s in REAL_ACCEPTS])
     return chx.judge("C07", cond, raw, p, obs, _oracle)
 
 
@@ -173,7 +178,9 @@ FUNCS = ["PythonRegex.__init__", "PythonRegex._replace_shortcuts", "PythonRegex.
          "PythonRegex._add_repetition", "PythonRegex._preprocess_optional", "PythonRegex._separate",
          "PythonRegex._recombine", "Regex.__init__", "Regex.to_epsilon_nfa", "Regex.accepts"]
 RULE = "pattern of >= 2 characters inside the documented subset that Python compiles"
-ASSUME = ["patterns that compile but use constructs outside the documented subset (lazy/possessive quantifiers, "
+ASSUME = ["the constructor PythonRegex(p) runs under the symbolic interpreter; to_epsilon_nfa()/accepts() of the built "
+          "object run natively (100-way unions exceed the C recursion limit under tracing)",
+          "patterns that compile but use constructs outside the documented subset (lazy/possessive quantifiers, "
           "anchors, look-around, back-references, flags, {m,}/{,n}, a literal '{', escapes other than metacharacters "
           "and \\d \\s \\w) are assumed away; membership is decided on CPython's own parse tree (re._parser)",
           "languages are compared on every string of length <=2 over 20 printable characters and length 3 over "
